@@ -264,16 +264,13 @@ func runC16(p *Program, r *Report) {
 		r.Check(ok && k.Value == nil, "C16.R1", fmt.Sprintf("%s#return%d", cn, i), p.Pos(ret.Pos()), "failure returns the zero StyleSheet", "a path that bypasses the checked construction returns a non-zero StyleSheet")
 	}
 	// presence of the bracket-balance guard on a stripped selector, and its table
-	var stripRC *RegexConst
-	site.Cond.Atoms(func(a *LAtom) {
-		if a.Term.Strip != nil {
-			stripRC = a.Term.Strip
-		}
-	})
+	site.Cond.Atoms(func(a *LAtom) {})
 	balance := false
+	var balanceFn *ssa.Function
 	for _, a := range pv.Atoms(site.Store.Block()) {
 		if a.Pol && a.E.Op == "call" && a.E.Fn != nil && a.E.Fn.Pkg != nil && a.E.Fn.Pkg.Pkg.Path() == modulePath && len(a.E.Args) == 1 && calleeIs(a.E.Args[0], "(*regexp.Regexp).ReplaceAllString") && hasLoop(a.E.Fn) {
 			balance = true
+			balanceFn = a.E.Fn
 		}
 	}
 	r.Check(balance, "C16.R1", cn+"#balance-guard", site.Pos, "a bracket-balance test of the string-stripped selector dominates the construction", "no bracket-balance guard on the stripped selector")
@@ -314,6 +311,17 @@ func runC16(p *Program, r *Report) {
 		r.OK("C16.R2", c, site.Pos, "over-approximated accepted selectors "+per[0].String()+" ⊆ SAFE_SEL (no { } ; @ \\ < comment, open or bad string, or url( token outside strings)")
 		return
 	}
+	// the bracket-balance guard is not regular: it is expected to be dropped from the
+	// summary and is applied concretely when a witness is confirmed. Any other dropped
+	// guard makes the failure of the inclusion inconclusive.
+	for i, ix := range s.Inexact {
+		if balanceFn != nil && i < len(s.InexactIn) && s.InexactIn[i] == balanceFn {
+			continue
+		}
+		w, _ := badLang.Witness()
+		r.Undec("C16.R2", c, site.Pos, fmt.Sprintf("a guard could not be modelled (%s); with the remaining ones the inclusion in SAFE_SEL fails (e.g. %s)", ix, L.A.Render(w)))
+		return
+	}
 	// confirm a witness: must really pass the guards. Search within balanced≤3.
 	cand := relang.Intersect(badLang, balancedUpTo3(L.A)).Minimize()
 	confirmed := ""
@@ -321,7 +329,7 @@ func runC16(p *Program, r *Report) {
 	for _, w := range enumerateWitnesses(cand, 200) {
 		tries++
 		sel := string(L.A.Bytes(w))
-		if confirmSelector(sel, per[0], stripRC, regs) {
+		if confirmSelector(sel, per[0], regs) {
 			confirmed = fmt.Sprintf("%+q", sel)
 			break
 		}
@@ -396,11 +404,27 @@ func enumerateWitnesses(d *relang.DFA, n int) [][]int {
 // confirmSelector evaluates the guards of the construction on one concrete
 // candidate, using package regexp with the repository's pattern constants and
 // the checker's own bracket matcher.
-func confirmSelector(sel string, guard *Form, strip *RegexConst, regs map[string]*RegexConst) bool {
-	stripped := sel
-	if strip != nil {
-		stripped = regexp.MustCompile(strip.Src).ReplaceAllString(sel, "")
+func confirmSelector(sel string, guard *Form, regs map[string]*RegexConst) bool {
+	applyTerm := func(t Term) string {
+		x := sel
+		for _, st := range []*RegexConst{t.Strip, t.Strip2} {
+			if st != nil {
+				x = regexp.MustCompile(st.Src).ReplaceAllString(x, "")
+			}
+		}
+		if t.Lower {
+			x = strings.ToLower(x)
+		}
+		return x
 	}
+	// the bracket-balance guard is applied to the most-stripped term that occurs in the guards
+	var deepest Term
+	guard.Atoms(func(a *LAtom) {
+		if a.Term.Strip2 != nil || (a.Term.Strip != nil && deepest.Strip2 == nil) {
+			deepest = a.Term
+		}
+	})
+	stripped := applyTerm(deepest)
 	var ev func(f *Form) bool
 	ev = func(f *Form) bool {
 		switch f.Op {
@@ -426,13 +450,7 @@ func confirmSelector(sel string, guard *Form, strip *RegexConst, regs map[string
 			return false
 		case "atom":
 			a := f.Atom
-			t := sel
-			if a.Term.Strip != nil {
-				t = stripped
-			}
-			if a.Term.Lower {
-				t = strings.ToLower(t)
-			}
+			t := applyTerm(a.Term)
 			switch a.Kind {
 			case "search":
 				return regexp.MustCompile(a.Regex.Src).MatchString(t)
